@@ -13,6 +13,13 @@ def c07_ops(rng, tier):
     for _ in range(n):
         y, m, d = rand_date(rng)
         L.append("scd %d %d %d" % (y, m, d))
+    # weekday of a Julian date with a time of day (JulianDay::get_week on fractional values), incl. the seconds around noon and midnight
+    for _ in range(n // 3):
+        y, m, d = rand_date(rng)
+        h, mi, s = rng.choice([(0, 0, 0), (11, 59, 59), (12, 0, 0), (12, 0, 1), (23, 59, 59), (rng.randint(0, 23), rng.randint(0, 59), rng.randint(0, 59))])
+        L.append("jd.week %d %d %d %d %d %d" % (y, m, d, h, mi, s))
+        L.append("jd.weekf %d %d" % (rng.randint(1721424, 5373484), rng.choice([0, 1, 43199, 43200, 43201, 86399, rng.randint(0, 86399)])))
+    L += ["jd.weekf 1721423 0", "jd.weekf 5373485 0", "jd.weekf 2460000 86400", "jd.week 2024 2 30 0 0 0", "jd.week 2024 1 1 24 0 0"]
     return L
 
 
